@@ -806,9 +806,8 @@ class C16(Prop):
             out.append('build - bye 0 %d %s -' % (k, ' '.join('7' for _ in range(k))))
             out.append('build - rr 0 1 %d %s' % (k, ' '.join(rb(1) for _ in range(k))))
         out.append('build - sdes 0 256 %s' % ' '.join('%d 0' % i for i in range(256)))
-        if tier == 'thorough':
-            fir = lambda k: 'build - fb p 0 1 2 fir %d %s' % (k, ' '.join('%d 1' % i for i in range(k)))
-            out += [fir(32765), fir(32766), fir(32767)]
+        # (FIR lists around the 32766-entry limit are implementation-only probes, see probes(): the extracted model
+        # needs tens of minutes for one of them)
         return out
     def probes(self, tier):
         # the FIR entry limit: 2 + 2k words must fit the 16-bit length field, i.e. k <= 32766 (coq/Spec/Ref.v
